@@ -8,7 +8,8 @@
 (* Fields of the model spec (the generator library exists in TLA+ and, with *)
 (* the same names, in the .fan text the harness renders):                   *)
 (*   chk := g_sum(<p>, <q>)   = (p + q) % 10        two arguments           *)
-(*   len := g_len(<body>)     = length of body      one argument            *)
+(*   len := g_len(<body>)     = length of body      one argument; <len> is  *)
+(*                             one digit, so the generator is partial         *)
 (*   tag := g_tag()           in {"aa","b","ccc"}   no argument             *)
 (* RegenRule = "any"   : re-generate when any recorded argument changed     *)
 (*             "last"  : only when the last one changed (a plausible slip;  *)
@@ -16,7 +17,8 @@
 (***************************************************************************)
 EXTENDS Naturals, Sequences, TLC, Json
 
-CONSTANTS Digits, BodyLens, RegenRule, MaxOps, Record
+CONSTANTS Digits, BodyLens, RegenRule, MaxOps, Record,
+          FitMax            \* <len> ::= <digit>: the generator is partial for its rule - a value above FitMax does not fit it
 VARIABLES p, q, body,         \* recorded arguments
           chk, len,           \* generated texts (as numbers)
           hist
@@ -25,7 +27,7 @@ vars == <<p, q, body, chk, len, hist>>
 GSum(a, b) == (a + b) % 10
 GLen(b) == b
 
-Init == /\ p \in Digits /\ q \in Digits /\ body \in BodyLens
+Init == /\ p \in Digits /\ q \in Digits /\ body \in { b \in BodyLens : GLen(b) <= FitMax }
         /\ chk = GSum(p, q) /\ len = GLen(body)
         /\ hist = IF Record THEN <<[op |-> "init", arg |-> "", v |-> 0, p |-> p, q |-> q, body |-> body, chk |-> GSum(p, q), len |-> GLen(body)]>> ELSE <<>>
 
@@ -42,16 +44,21 @@ SetQ(v) == /\ v # q /\ q' = v
            /\ chk' = GSum(p, v)
            /\ UNCHANGED <<p, body, len>>
            /\ Log("set_arg", "q", v, p, v, body, chk', len)
-SetBody(v) == /\ v # body /\ body' = v /\ len' = GLen(v)
+SetBody(v) == /\ v # body /\ GLen(v) <= FitMax /\ body' = v /\ len' = GLen(v)
               /\ UNCHANGED <<p, q, chk>>
               /\ Log("set_arg", "body", v, p, q, v, chk, len')
+(* the value the generator computes for the new argument does not fit the field's rule: the replacement is refused (the
+   operator raises), argument and text stay as they were - never a field whose text belongs to other arguments *)
+SetBodyRefused(v) == /\ v # body /\ GLen(v) > FitMax
+                     /\ UNCHANGED <<p, q, body, chk, len>>
+                     /\ Log("set_arg_refused", "body", v, p, q, body, chk, len)
 (* an operator tries to overwrite generated text below the field (chk, len, or the argument-less tag): refused,
    nothing changes - in particular the text of <tag> stays what g_tag() returned *)
 EditGenerated(f, v) == /\ UNCHANGED <<p, q, body, chk, len>>
                        /\ Log("edit_generated", f, v, p, q, body, chk, len)
 
 Next == \/ \E v \in Digits : SetP(v) \/ SetQ(v) \/ EditGenerated("chk", v)
-        \/ \E v \in BodyLens : SetBody(v) \/ EditGenerated("len", v) \/ EditGenerated("tag", v)
+        \/ \E v \in BodyLens : SetBody(v) \/ SetBodyRefused(v) \/ EditGenerated("len", v) \/ EditGenerated("tag", v)
 Spec == Init /\ [][Next]_vars
 
 (* C16 *)
